@@ -5,6 +5,7 @@ CONSTANTS
   ViewIds = {1, 2}
   MaxEvents = 3
   SharedSlot = TRUE
+  ArgAliased = FALSE
 INVARIANT ReadIsFilter
 INVARIANT SurvivorsInOrder
 INVARIANT EmptyInclude
